@@ -37,6 +37,31 @@ thread_local! {
     static MANUAL: Cell<u64> = const { Cell::new(0) };
     static TOKIO_BASE: Cell<Option<tokio::time::Instant>> = const { Cell::new(None) };
     static READS: Cell<u64> = const { Cell::new(0) };
+    /// How far the clock the code under test reads runs ahead of the harness's
+    /// time line: the sum of the stalls injected so far (fault `clock.stall`).
+    static SKEW: Cell<u64> = const { Cell::new(0) };
+    static STALLS_ON: Cell<bool> = const { Cell::new(false) };
+}
+
+/// Lengths of an injected stall (value 1.. of the `clock.stall` decision), ns.
+pub const STALL_NS: [u64; 7] = [0, 1_000, 1_000_000, 150_000_000, 400_000_000, 700_000_000, 1_500_000_000];
+
+/// Fault `clock.stall`: the process is held up (descheduled, paused) just before
+/// a clock read of the code under test, so that two reads which are normally
+/// microseconds apart see different times.  Decided per read by the installed
+/// world; the harness's own time line (`elapsed_*`) is not moved.
+pub fn enable_stalls(on: bool) {
+    STALLS_ON.with(|c| c.set(on));
+}
+
+/// Total length of the stalls injected so far, in ns.
+pub fn skew_nanos() -> u64 {
+    SKEW.with(Cell::get)
+}
+
+/// The time the code under test would read now (no stall is drawn).
+pub fn code_now_nanos() -> u64 {
+    elapsed_nanos().saturating_add(skew_nanos())
 }
 
 /// Harness side: the clock reads made so far at this instant were the harness's
@@ -51,7 +76,23 @@ impl Instant {
     /// If no clock source has been selected on this thread.
     pub fn now() -> Instant {
         READS.with(|r| r.set(r.get() + 1));
-        let now = elapsed_nanos();
+        if STALLS_ON.with(Cell::get) {
+            let stall = crate::world::try_with(|w| {
+                let entity = w.ctx_label().to_string();
+                #[allow(clippy::cast_possible_truncation)]
+                let v = w.choose("clock.stall", &entity, STALL_NS.len() as u64) as usize;
+                if v > 0 {
+                    w.bump("fired.clock.stall");
+                    w.log_event("clock.stall", &format!("{entity} {}ns", STALL_NS[v]));
+                }
+                STALL_NS[v]
+            })
+            .unwrap_or(0);
+            if stall > 0 {
+                SKEW.with(|c| c.set(c.get().saturating_add(stall)));
+            }
+        }
+        let now = elapsed_nanos().saturating_add(SKEW.with(Cell::get));
         if LAST_INSTANT.with(Cell::get) == now {
             let n = READS_AT_INSTANT.with(|c| {
                 c.set(c.get() + 1);
@@ -124,6 +165,8 @@ pub fn use_manual() {
     SOURCE.with(|s| s.set(Source::Manual));
     MANUAL.with(|m| m.set(0));
     READS.with(|r| r.set(0));
+    SKEW.with(|c| c.set(0));
+    STALLS_ON.with(|c| c.set(false));
 }
 
 /// Select the tokio (paused) clock; "now" becomes time zero of the run.  Must
@@ -132,12 +175,16 @@ pub fn use_tokio() {
     TOKIO_BASE.with(|b| b.set(Some(tokio::time::Instant::now())));
     SOURCE.with(|s| s.set(Source::Tokio));
     READS.with(|r| r.set(0));
+    SKEW.with(|c| c.set(0));
+    STALLS_ON.with(|c| c.set(false));
 }
 
 pub fn unset() {
     SOURCE.with(|s| s.set(Source::Unset));
     LAST_INSTANT.with(|c| c.set(u64::MAX));
     READS_AT_INSTANT.with(|c| c.set(0));
+    SKEW.with(|c| c.set(0));
+    STALLS_ON.with(|c| c.set(false));
 }
 
 pub fn source() -> Source {
